@@ -61,7 +61,7 @@ func (e *Engine) VerifyFunction(fn *ssa.Function, fc *FuncContract) (res *FnResu
 		arrSort: map[string]string{}, arrBase: map[string]bool{}, reach: map[*ssa.BasicBlock]string{}, outState: map[*ssa.BasicBlock]*State{},
 		edgeCond: map[[2]*ssa.BasicBlock]string{}, brCond: map[*ssa.BasicBlock]string{}, names: map[string]Val{},
 		nameCount: map[string]int{}, fnShort: shortFnName(fn), notes: map[string]bool{}, strLits: map[string]string{},
-		structSeen: map[string]bool{}, axiomsDone: map[string]bool{}, phiEntry: map[*ssa.Phi]Val{}, lockOf: map[ssa.Value]string{}}
+		structSeen: map[string]bool{}, axiomsDone: map[string]bool{}, phiEntry: map[*ssa.Phi]Val{}, lockOf: map[ssa.Value]string{}, strApps: map[string]string{}}
 	res = &FnResult{Fn: fv.fnShort, Query: fv.q, Mode: mode.String()}
 	defer func() {
 		if r := recover(); r != nil {
